@@ -231,14 +231,14 @@ theorem lookup_assocSet (n k : String) (v : α) :
       · have : (n == k') = false := by simpa using hn
         simp [this]
 
-theorem lookup_append (n : String) :
+theorem lookup_append_orElse (n : String) :
     ∀ l1 l2 : List (String × α), lookup n (l1 ++ l2) = (lookup n l1).orElse fun _ => lookup n l2
   | [], l2 => by simp [lookup]
   | (k, v) :: rest, l2 => by
     simp only [List.cons_append, lookup]
     split
     · simp
-    · exact lookup_append n rest l2
+    · exact lookup_append_orElse n rest l2
 
 theorem lookup_updateAll (n : String) :
     ∀ (l acc : List (String × α)),
@@ -246,7 +246,7 @@ theorem lookup_updateAll (n : String) :
   | [], acc => by simp [updateAll, lookup]
   | p :: ps, acc => by
     simp only [updateAll, List.reverse_cons]
-    rw [lookup_updateAll n ps, lookup_append, lookup_assocSet]
+    rw [lookup_updateAll n ps, lookup_append_orElse, lookup_assocSet]
     cases lookup n ps.reverse with
     | some v => simp
     | none =>
@@ -299,7 +299,7 @@ theorem lookup_flatten_map (g : String → List (String × α)) (n : String) :
       | none => none
   | [] => by simp [firstOwner, lookup]
   | k :: ks => by
-    simp only [List.map_cons, List.flatten_cons, lookup_append, firstOwner]
+    simp only [List.map_cons, List.flatten_cons, lookup_append_orElse, firstOwner]
     cases hk : lookup n (g k) with
     | some v => simp [hk]
     | none => simp [lookup_flatten_map g n ks]
